@@ -110,6 +110,14 @@ class Model:
                 self.members[u].append(n)
                 self.unis_of[n].append(u)
             return ("newvertex", n)
+        if name == "newu2":
+            for _ in range(2):
+                n = self._new_vertex()
+                self.members[n] = []
+                for v in r[1]:
+                    self.members[n].append(v)
+                    self.unis_of[v].append(n)
+            return ("none",)
         if name == "newu":
             n = self._new_vertex()
             self.members[n] = []
